@@ -1,9 +1,11 @@
-/- Driver ops for Cleaner.  Ops: cleaner.step, cleaner.state, cleaner.judge, cleaner.instance, cleaner.bounds -/
+/- Driver ops for Cleaner.  Ops: cleaner.step, cleaner.state, cleaner.judge, cleaner.instance, cleaner.bounds, cleaner.spec -/
 import JumanjiModel.Bridge.Json
 import JumanjiModel.Env.Cleaner.Model
 import JumanjiModel.Env.Cleaner.Bounds
 import JumanjiModel.Env.Maze.MazeGen
 import JumanjiModel.Env.Cleaner.Gen
+import JumanjiModel.Bridge.Spec
+import JumanjiModel.Env.Cleaner.SpecLemmas
 open Lean Jb
 
 namespace Jb.Cleaner
@@ -37,6 +39,8 @@ def getObs (j : Json) : Except String Obs := do
   pure { grid := ← fIntGrid j "grid", agents := ← getLocs j "agents_locations",
          actionMask := ← fBoolGrid j "action_mask", stepCount := ← fInt j "step_count" }
 
+def jNValue (v : Sp.NValue) : Json := jList (fun (e : String × Sp.Arr) => jObj [("key", jStr e.1), ("value", SpecOps.jArr e.2)]) v
+
 /-- {cfg, state, action:[int]} → {state, ts, valid:[bool per agent]} -/
 def opStep : Op := fun j => do
   let cfg ← getCfg (← field j "cfg")
@@ -55,7 +59,12 @@ def opState : Op := fun j => do
               ("legal", jBools (legalMask cfg s.grid s.agents).flatten),
               ("obs", jObs (observe cfg s)),
               ("consistent", jBool (decide (Consistent cfg s))),
-              ("objective", jRat (objective cfg s))])
+              ("objective", jRat (objective cfg s)),
+              -- wave 3 (C01 / C12): the timestep the model's `reset` builds on top of this (generated) state, the model
+              -- observation as spec-level arrays, and its membership in the model's `obsSpec cfg`
+              ("reset_ts", jTimeStep jObs (reset cfg s).2),
+              ("nvalue", jNValue (toNValue cfg (obsOf s))),
+              ("obs_in_spec", jBool ((obsSpec cfg).valid (toNValue cfg (obsOf s))))])
 
 /-- {cfg, state, action, next, ts} → {illegal_ok: bool|null, conserved: bool} -/
 def opJudge : Op := fun j => do
@@ -95,7 +104,14 @@ def opBounds : Op := fun j => do
   let jo : Option Rat → Json := fun o => match o with | none => .null | some r => jRat r
   pure (jObj ((obsBounds cfg).map (fun (k, lo, hi) => (k, jObj [("lo", jo lo), ("hi", jo hi)]))))
 
+/-- {cfg} → the model's `obsSpec cfg`, `actionSpec cfg`, reward and discount spec in the `speclib.leaf_json` layout -/
+def opSpec : Op := fun j => do
+  let cfg ← getCfg (← field j "cfg")
+  pure (jObj [("observation_spec", SpecOps.jNested (obsSpec cfg)), ("action_spec", SpecOps.jLeaf (actionSpec cfg)),
+              ("reward_spec", SpecOps.jLeaf PzS.rewardSpec), ("discount_spec", SpecOps.jLeaf PzS.discountSpec),
+              ("action_spec_wf", jBool (actionSpec cfg).WF), ("generate_value", SpecOps.jArr (actionSpec cfg).generate)])
+
 def ops : List (String × Op) :=
-  [("cleaner.bounds", opBounds), ("cleaner.step", opStep), ("cleaner.state", opState), ("cleaner.judge", opJudge),
+  [("cleaner.spec", opSpec), ("cleaner.bounds", opBounds), ("cleaner.step", opStep), ("cleaner.state", opState), ("cleaner.judge", opJudge),
    ("cleaner.instance", opInstance)]
 end Jb.Cleaner
